@@ -22,7 +22,6 @@ func curatedCases(names ...string) []*pipeline.Case {
 	return out
 }
 
-
 const latticeRule = "cases = curated corpus (every construct of D) + seeded random descriptors; per selected type N struct values drawn from the state lattice (modes zero/mixed/sparse/dense/boundary); distinct = distinct (case, type, shape signature) triples, the signature being the vector of lattice states (nil/empty/len, pointer nil-ness, active oneof branch, embed state) along the spec tree; "
 
 // stdL2 is the common flow of the value-driven L2 properties.
@@ -66,7 +65,7 @@ func init() {
 		Rule:  "cases = curated corpus + seeded random descriptors; CopyFrom: per selected type B conforming base objects (fully known plan / masked plan); every fault position reachable through known parents is enumerated (attributes at every depth, list elements, map values; counter from-fault-positions) and every single fault at it is applied one at a time (delete, wrong Go type, nil interface, nil Attrs, nil Elems, wrong-typed / nil element; counter from-single-faults), then random sets of 2-6 non-nested faults (counter from-fault-sets); oracle: no panic, one error diagnostic per visited fault naming the model's field path, total count equal to the number of visited faults, every field outside the faulted attributes equal to the unfaulted decode. CopyTo: for a dense source value every attribute type of every object-type level the source reaches (top level, nested objects, list and map element types) is removed or replaced one at a time (counter to-type-faults); oracle: no panic, one missing-attribute diagnostic per visit naming the field, all other attributes identical to the unfaulted run; distinct = distinct (fault kind, field path) pairs",
 		Check: stdL2("C06", 6, 120)})
 	register(&Property{ID: "C19", Level: "exploration",
-		Rule:  "cases = scalar / temporal / cast matrices of the curated corpus (k2, k3, k4, k1) + seeded random descriptors; for every scalar-like root field shape (singular, repeated element, map value, oneof branch, cast type; counter shapes) the full boundary set of its Go type (counter boundary-values: signed / unsigned 32 and 64 bit extremes, 2^53 neighbours, float32 / float64 subnormal, largest, rounding neighbours, +-0, +-Inf for double, empty / NUL / non-UTF-8 / 10 kB strings, all 256 byte values, enum numbers inside and outside the declared range, time instants with nanoseconds in +-14 h zones from year 1 to 9999, extreme durations) plus N full-range random values is placed into the field (two distinct values for lists and maps) and must survive CopyTo into an empty object followed by CopyFrom exactly (floats: bit equality up to the sign of zero); distinct = distinct (field, value) pairs",
+		Rule: "cases = scalar / temporal / cast matrices of the curated corpus (k2, k3, k4, k1) + seeded random descriptors; for every scalar-like root field shape (singular, repeated element, map value, oneof branch, cast type; counter shapes) the full boundary set of its Go type (counter boundary-values: signed / unsigned 32 and 64 bit extremes, 2^53 neighbours, float32 / float64 subnormal, largest, rounding neighbours, +-0, +-Inf for double, empty / NUL / non-UTF-8 / 10 kB strings, all 256 byte values, enum numbers inside and outside the declared range, time instants with nanoseconds in +-14 h zones from year 1 to 9999, extreme durations) plus N full-range random values is placed into the field (two distinct values for lists and maps) and must survive CopyTo into an empty object followed by CopyFrom exactly (floats: bit equality up to the sign of zero); distinct = distinct (field, value) pairs",
 		Check: func(r *Run) {
 			cases := curatedCases("k1", "k2", "k3", "k4", "k6a", "k6b", "k7")
 			cases = append(cases, randomCases(r, r.pick(6, 30))...)
@@ -77,8 +76,8 @@ func init() {
 	register(&Property{ID: "C10", Level: "exploration",
 		Rule: "cases = curated descriptors (k1 fixture-like configuration; k5, k7, k8, k9, k3 each under V pseudo-random option sets) + seeded random descriptors with random option sets: arbitrary subsets of fields for required / computed / sensitive keyed by full path or Message.Field, validator and plan-modifier lists carrying ids, use_state_for_unknown_by_default on / off, injected fields at the root and at nested paths, comments of ten torture shapes (multi-line, indented, CRLF, blank lines, quotes, tabs, unicode, none); one evaluation = one GenSchemaT call walked attribute by attribute against the reference model (counter attributes-judged; injected-judged; placeholders-judged) plus CopyTo runs that must not emit injected attributes; distinct = distinct (field path, flag combination, list lengths, comment presence) tuples",
 		Check: func(r *Run) {
-			cases := curatedCases("k1", "k3", "k5", "k6a", "k7", "k8", "k9")
-			for _, n := range []string{"k5", "k7", "k8", "k9", "k3", "k6a"} {
+			cases := curatedCases("k1", "k3", "k5", "k6a", "k7", "k8", "k9", "k10a", "k10b")
+			for _, n := range []string{"k5", "k7", "k8", "k9", "k3", "k6a", "k10b"} {
 				for k := 0; k < r.pick(2, 12); k++ {
 					cases = append(cases, caseFrom(descgen.OptionVariant(descgen.CuratedByName(n), r.Seed, k)))
 				}
